@@ -1269,7 +1269,8 @@ def run_mboot_fault_case(ctx, cfg, ops, rng, budget, cands_fn=None):
             break
         if not judged:
             stats["not-triggered"] += 1
-    ctx.note("mboot_fault_stats", stats)
+    for k2, n in stats.items():
+        ctx.count("mboot_fault_" + k2.replace("-", "_"), n)
 
 
 # =============================================================================================
@@ -1628,7 +1629,8 @@ def run_sdp_fault_case(ctx, cfg, ops, rng, budget, cands=None):
                 stats["surfaced"] += 1
                 ctx.ok(sig + ["surfaced", type(out.exc).__name__ if out.exc else "status"])
             break
-    ctx.note("sdp_fault_stats", stats)
+    for k2, n in stats.items():
+        ctx.count("sdp_fault_" + k2, n)
 
 
 # =============================================================================================
